@@ -17,14 +17,15 @@ RULE = (
     "inside [minTimestamp,maxTimestamp], labels trimmed, entries are Interval/Point, validate('silence') is True. An "
     "operation may instead raise a praatio error; a non-praatio exception is a violation unless the arguments were outside "
     "the documented domain. Non-trivial: >=3 successful steps including a colliding insertEntry, a shrinking eraseRegion, a "
-    "splitting insertSpace, a merge/union, or a clipping editTimestamps."
+    "splitting insertSpace, a merge/union, or a clipping editTimestamps. Check 'opened': textgrids rendered by the independent "
+    "writer (vlib/tgspec.py) in the long, short and both JSON layouts are opened and every resulting tier must satisfy the same invariant."
 )
 ASSUMPTIONS = [
     "outside the documented domain (any exception accepted, but a returned tier must still be well-formed): insertSpace with "
     "duration<=0, insertEntry with start>=end, deleteEntry of an absent entry, dejitter with an empty reference, "
     "constructor with minT>maxT",
 ]
-REQUIRED_CLASSES = ["history:insert_entry_ok", "history:construct_ok", "history:erase_ok", "history:morph_ok",
+REQUIRED_CLASSES = ["opened:time_order_differs_from_text_order", "history:insert_entry_ok", "history:construct_ok", "history:erase_ok", "history:morph_ok",
                     "history:dejitter_ok", "history:untrimmed_label_inserted"]
 
 
@@ -79,7 +80,56 @@ def run_history(case):
     return {"classes": sorted(classes), "nontrivial": ok_steps >= 3 and interesting}
 
 
+def run_opened(case):
+    """Tiers obtained by opening a file (written by the independent writer in any layout, or by the library itself)."""
+    from vlib import iomodel
+    from props import c03
+
+    data = case["data"]
+    cl = set()
+    for layout in ("long", "short", "json", "textgrid_json"):
+        text = c03.render(data, layout, case["num"], False)
+        if layout in ("long", "short") and iomodel.reader_confusion(data, layout):
+            continue  # the readers' known trouble with format keywords inside names/labels is C01/C03's subject
+        try:
+            tg = iomodel.open_bytes(text.encode("utf-8"), case["include_empty"], "error")
+        except P().errors.PraatioException as e:
+            note_accept(f"open:{type(e).__name__}")
+            continue
+        for t in tg.tiers:
+            invariant(t, f"tier {t.name!r} of a {layout} file opened with includeEmptyIntervals={case['include_empty']}")
+            ents = list(t.entries)
+            if len(ents) >= 2 and [repr(e[0]) for e in ents] != sorted(repr(e[0]) for e in ents):
+                cl.add("time_order_differs_from_text_order")
+            cl.add("opened")
+    return {"classes": sorted(cl), "nontrivial": "opened" in cl and any(t["entries"] for t in data["tiers"])}
+
+
+@st.composite
+def opened_cases(draw):
+    from vlib import iomodel
+
+    spec = draw(gen.io_textgrid(clean=draw(st.booleans()), styles=("dec", "wild", "wild", "grid")))
+    data = iomodel.spec_to_data(spec)
+    if draw(st.integers(0, 2)) == 0 and "pp" not in [t["name"] for t in data["tiers"]]:
+        # times whose text forms sort differently from their values (2.75 < 9.5 < 10.25 < 100 but '10.25' < '100' < '2.75' < '9.5')
+        ts = sorted(set(draw(st.lists(st.sampled_from([1e-05, 0.5, 2.75, 9.5, 10.25, 33.0, 100.0, 250.5, 1000.0]), min_size=2, max_size=5))))
+        ts = [t for t in ts if t >= data["xmin"]]
+        if ts:
+            data["xmax"] = max(data["xmax"], ts[-1])
+            if draw(st.booleans()):
+                data["tiers"].append({"class": "TextTier", "name": "pp", "xmin": data["xmin"], "xmax": data["xmax"],
+                                      "entries": [(t, draw(st.sampled_from(["a", "b", ""]))) for t in ts]})
+            elif len(ts) >= 2:
+                data["tiers"].append({"class": "IntervalTier", "name": "pp", "xmin": data["xmin"], "xmax": data["xmax"],
+                                      "entries": [(a, b, draw(st.sampled_from(["a", "b", ""]))) for a, b in zip(ts, ts[1:])]})
+    return {"data": data, "num": draw(st.sampled_from(["repr", "praat", "17", "exp"])),
+            "include_empty": draw(st.booleans())}
+
+
 CHECKS = [
+    Check("opened", run_opened, strategy=lambda tier: opened_cases(), quick_n=400, thorough_n=6000,
+          doc="tiers obtained by opening files in every layout: same invariant"),
     Check("history", run_history, strategy=lambda tier: ops.histories(12), quick_n=2000, thorough_n=25000,
           doc="operation histories, invariant after every step"),
 ]
